@@ -128,8 +128,9 @@ Definition res_of_wobs (x : bytes) (lib : res) (w : wobs) : res :=
 Record dobs := { dmg : damage; lib_dec : robs; wrap_dec : wobs }.
 
 Inductive case :=
-| CRound (t : Z) (x : bytes) (lib_enc wrap_enc lib_dec0 wrap_dec0 : res)
-    (* compress x, decompress the result; lib_* = the codec called directly *)
+| CRound (t : Z) (x : bytes) (lib_enc : res) (wrap_enc : option res) (lib_dec0 : robs) (wrap_dec0 : wobs)
+    (* compress x, decompress the result; lib_* = the codec called directly;
+       wrap_enc = None: same as lib_enc *)
 | CRoundBig (t : Z) (len : N) (same : bool)
     (* large payload, compared on the Go side only *)
 | CDamage (t : Z) (x y : bytes) (ds : list dobs)
@@ -211,7 +212,10 @@ Definition chk_dobs (t : Z) (x y : bytes) (runs : roles) (o : dobs) : list N :=
 
 Definition chk (c : case) : list N :=
   match c with
-  | CRound t x le we ld wd =>
+  | CRound t x le we0 ld0 wd0 =>
+    let we := match we0 with None => le | Some r => r end in
+    let ld := res_of_robs x ld0 in
+    let wd := res_of_wobs x ld wd0 in
     code_if (res_eqb (compress (fun _ _ => le) t x) we) 1 ++
     match we with
     | Ok y => code_if (res_eqb (model_dec t ld y) wd) 1
